@@ -146,11 +146,22 @@ def theorem_at(path, line):
     return name
 
 
-def forbidden_source_scan():
-    """grep the Coq development for anything that would void the kernel's guarantee"""
+def cone_of(prop, extra=()):
+    """source files in the dependency cone of Props/<prop>.v (plus extra targets)"""
+    files = set()
+    for t in [f'Props/{prop}.v'] + [e[:-1] if e.endswith('.vo') else e for e in extra]:
+        rc, out = sh(['coqdep', '-Q', '.', 'OV', '-sort', t], cwd=COQ)
+        files.update(x for x in out.split() if x.endswith('.v'))
+    return files
+
+
+def forbidden_source_scan(only=None):
+    """grep the Coq development (or the given cone of files) for anything that would void the kernel's guarantee"""
     bad = []
     pat = re.compile(r'\b(Admitted|admit|Axiom|Parameter|Conjecture|Admit Obligations)\b|Unset\s+Guard|bypass_check|type-in-type|impredicative-set|Unset\s+Positivity|Unset\s+Universe')
     for rel in coq_files():
+        if only is not None and rel not in only:
+            continue
         txt = open(os.path.join(COQ, rel)).read()
         # strip comments
         txt2 = re.sub(r'\(\*.*?\*\)', '', txt, flags=re.S)
@@ -428,6 +439,8 @@ def coq_arg(kind, v):
         return '[' + '; '.join('[' + '; '.join(fhex(float.fromhex(x)) for x in r) + ']' for r in v) + ']'
     if kind == 'intlist':
         return '[' + '; '.join(zlit(x) for x in v) + ']'
+    if kind == 'boollist':
+        return '[' + '; '.join('true' if x else 'false' for x in v) + ']'
     raise ValueError(kind)
 
 
@@ -482,11 +495,13 @@ def kernel_correspondence(man, cases, tol=None, scalars=(), arrays=(), plain_sel
                 elif o['kind'] == 'list':
                     pvl = pv if isinstance(pv, list) else [pv]
                     cmps.append(f'close_list {fhex(tol if tol is not None else 0.0)} o{j} [' + '; '.join(fhex(float.fromhex(x)) for x in pvl) + ']')
+                elif o['kind'] == 'boollist':
+                    cmps.append(f'(if list_eq_dec Bool.bool_dec o{j} [' + '; '.join('true' if x else 'false' for x in pv) + '] then true else false)')
                 else:
                     cmps.append('false')
             body = ' && '.join(cmps) if cmps else 'true'
             if man['can_raise']:
-                lines.append(f'match {call} with None => false | Some {pat} => {body} end')
+                lines.append(f'match {call} with None => false | Some {pat.lstrip(chr(39))} => {body} end')
             else:
                 lines.append(f'(let {pat} := {call} in {body})')
         bodies.append('Eval vm_compute in (report [\n' + ';\n'.join(lines) + '\n]).\n')
